@@ -154,6 +154,7 @@ def show(tree):
 
 
 def run(ctx):
+    from bnpmon.util import lazy_selection
     import bionumpy as bnp
     from bionumpy.datatypes import BedGraph, Interval
     rng = ctx.rng
@@ -190,11 +191,19 @@ def run(ctx):
                 iv2 = sorted(iv + extra, key=lambda t: (names.index(t[0]), t[1]))
                 if r.random() < 0.5:
                     r.shuffle(iv2)          # interval sets need not be sorted or grouped by chromosome
-                t = Interval([x[0] for x in iv2], np.array([x[1] for x in iv2], dtype=int), np.array([x[2] for x in iv2], dtype=int))
+                mk_iv = lambda rows: Interval([x[0] for x in rows], np.array([x[1] for x in rows], dtype=int), np.array([x[2] for x in rows], dtype=int))
+                t = mk_iv(iv2)
+                if iv2 and r.random() < 0.3:
+                    t, _ = lazy_selection(mk_iv, iv2, r, lambda: (names[0], 0, 1))      # a lazy row selection of a bigger table
+                    ctx.count("lazy_selection_operands")
                 ga = genome.get_intervals(t).get_mask()
             else:
                 vals = np.array([v for n, s, e, v in flat], dtype=(int if kind == "int" else float))
-                bg = BedGraph([n for n, s, e, v in flat], np.array([s for n, s, e, v in flat], dtype=int), np.array([e for n, s, e, v in flat], dtype=int), vals)
+                mk_bg = lambda rows: BedGraph([x[0] for x in rows], np.array([x[1] for x in rows], dtype=int), np.array([x[2] for x in rows], dtype=int), np.array([x[3] for x in rows], dtype=(int if kind == "int" else float)))
+                bg = mk_bg(flat)
+                if flat and r.random() < 0.3:
+                    bg, _ = lazy_selection(mk_bg, flat, r, lambda: (names[0], 0, 1, 1))
+                    ctx.count("lazy_selection_operands")
                 ga = genome.get_track(bg)
             tracks.append(ga)
             denses.append(d)
@@ -222,6 +231,8 @@ def run(ctx):
                 r.shuffle(ivs)
             if ivs:
                 t = Interval([x[0] for x in ivs], np.array([x[1] for x in ivs], dtype=int), np.array([x[2] for x in ivs], dtype=int))
+                if r.random() < 0.3:
+                    t, _ = lazy_selection(lambda rows: Interval([x[0] for x in rows], np.array([x[1] for x in rows], dtype=int), np.array([x[2] for x in rows], dtype=int)), ivs, r, lambda: (names[0], 0, 1))
                 pu = genome.get_intervals(t).get_pileup().to_dict()
                 exp = {n: np.zeros(sizes[n], dtype=int) for n in names}
                 for n, a, b in ivs:
